@@ -50,7 +50,8 @@ class Impl:
             r = self.chip.inject(1, fr.pack())
             if r[1] not in ("new",):
                 raise RuntimeError("injection failed: %s" % (r,))
-            self.node.update()
+            with sim.guard(self.s, 3_000_000_000):
+                self.node.update()
 
     def deq(self):
         fr = (self.q if self.node is None else self.node.queue).dequeue()
